@@ -34,6 +34,7 @@ type HarnessSpec struct {
 	MaxPaths int                   `json:"max_paths"`
 	Redirect map[string]string     `json:"redirect"`
 	RedirectSet string             `json:"redirect_set"`
+	ForkIn  []string               `json:"fork_in"`
 }
 
 type Props struct {
@@ -129,6 +130,9 @@ func main() {
 				}
 				for _, u := range h.UF {
 					e.UFStubs[expandName(u)] = true
+				}
+				for _, f := range h.ForkIn {
+					e.ForkIn[expandName(f)] = true
 				}
 			}
 		}
@@ -366,6 +370,9 @@ func runProp(prop, tier string, workers int, debug bool, only string, noReplay b
 				}
 				for k, v := range j.h.Redirect {
 					e.Redirect[expandName(k)] = expandName(v)
+				}
+				for _, f := range j.h.ForkIn {
+					e.ForkIn[expandName(f)] = true
 				}
 				e.KnownOpen = map[string]bool{}
 				for id := range openKnown {
